@@ -87,6 +87,7 @@ static void run_pair(void) {
   else if (t1 == mjGEOM_SPHERE && t2 == mjGEOM_CAPSULE) f = mjc_SphereCapsule;
   else if (t1 == mjGEOM_CAPSULE && t2 == mjGEOM_CAPSULE) f = mjc_CapsuleCapsule;
   else if (t1 == mjGEOM_PLANE && t2 == mjGEOM_CYLINDER) f = mjc_PlaneCylinder;
+  else if (t1 == mjGEOM_SPHERE && t2 == mjGEOM_CYLINDER) f = mjc_SphereCylinder;
   if (!f || mjCOLLISIONFUNC[t1][t2] != f) { printf("ERR\n"); return; }   // the table entry must be this function
   mjPreContact con[mjMAXCONPAIR];
   memset(con, 0, sizeof(con));
